@@ -55,7 +55,15 @@ FailsBufVarint(e) ==
   Chk(e.bytes = VarlongOf(e.v.b), "WriteBuf.Varint is not the shortest zig-zag varint")
   \o Chk(e.rout = "ok" /\ e.rv.b = e.v.b /\ e.left = 0, "ReadBuf.Varint does not invert WriteBuf.Varint")
 
+\* a run of values decoded into slots the codec allocated itself (Codec.New); all slots read afterwards
+FailsPrimNew(e) ==
+  Chk(e.rout = "ok" /\ e.left = 0, "decoding a run of written values failed or left bytes")
+  \o Chk(e.rout # "ok" \/ (Len(e.rvs) = Len(e.vs) /\ \A i \in 1..Len(e.vs) :
+            IF e.codec = "f32double" /\ e.vs[i].nan THEN e.rvs[i].nan ELSE e.rvs[i].b = e.vs[i].b),
+          "a value decoded into a codec-allocated slot differs from the value written (slots overlap?)")
+
 Fails(e) == CASE e.op = "prim" -> FailsPrim(e)
+              [] e.op = "primnew" -> FailsPrimNew(e)
               [] e.op = "primr" -> FailsPrimR(e)
               [] e.op = "bufvarint" -> FailsBufVarint(e)
               [] OTHER -> <<"unknown event">>
